@@ -45,7 +45,7 @@ def gen_room_params(rng, small=True):
 
 
 def build_fast(sides, patch, absorption=None, att=None, n_bands=1, sampling=None,
-               tables=None, setter_order=None, origin=(0., 0., 0.)):
+               tables=None, setter_order=None, origin=(0., 0., 0.), install=None, sampling_in=None):
     """DirectionalRadiosityFast on a shoebox.
     absorption: (6, B) per-wall per-band absorption for Lambertian single/multi-direction
     tables: optional list of 6 arrays (n_in, n_out, B) of raw BRDF values (before *pi)
@@ -67,17 +67,22 @@ def build_fast(sides, patch, absorption=None, att=None, n_bands=1, sampling=None
         ops.append(('att', None))
     if setter_order is not None:
         ops = [ops[k] for k in setter_order]
+    if install == 'default-first' and (absorption is not None or tables is not None):
+        # another way to reach the same configuration: wall 0's material on ALL walls first, the
+        # other walls re-assigned one by one afterwards
+        ops = [('brdf-all', 0)] + [o for o in ops if o != ('brdf', 0)]
     for kind, w in ops:
         if kind == 'att':
             r.set_air_attenuation(P.FrequencyData(np.asarray(att, dtype=float), freqs))
         else:
             samp = single_dir() if sampling is None else sampling.copy()
+            samp_i = samp if sampling_in is None else sampling_in.copy()
             n = samp.csize
             if tables is not None:
                 data = np.asarray(tables[w], dtype=float)
             else:
-                data = np.ones((n, n, n_bands)) * (1 - np.asarray(absorption[w], dtype=float)) / np.pi
-            r.set_wall_brdf([w], P.FrequencyData(data, freqs), samp.copy(), samp.copy())
+                data = np.ones((samp_i.csize, n, n_bands)) * (1 - np.asarray(absorption[w], dtype=float)) / np.pi
+            r.set_wall_brdf(list(range(6)) if kind == 'brdf-all' else [w], P.FrequencyData(data, freqs), samp_i.copy(), samp.copy())
     return r
 
 
